@@ -10,6 +10,7 @@ B. ORDER IRRELEVANCE: the derived sequence reads the numbering of the first grap
 -/
 import AgVerif.Model.DerivedSeq
 import AgVerif.Proof.Intervals
+import AgVerif.Props.C19
 import Mathlib.Data.List.Forall2
 import Mathlib.Data.List.Nodup
 namespace AgVerif.DerivedSeq
@@ -694,5 +695,509 @@ theorem length_eq_sum_cnt (nodes : List Nat) (hN : nodes.Nodup) : ∀ (r : List 
     rw [sum_cnt_cons, ← ih (fun y hy => h y (mem_cons_of_mem _ hy)),
       count_eq_one_of_mem hN (h x mem_cons_self)]
     simp
+
+/-- THE MEASURE DECREASES: on a well-formed level whose interval graph has more than one node, fewer edges
+    are recorded for the interval graph than the level has predecessor slots.  (The last processed header has
+    at most one recorded predecessor but at least two predecessors; the intervals are disjoint, so every other
+    header has at most as many recorded predecessors as predecessors.) -/
+theorem recs_lt_predSum (L : Level) (hL : Nice L) (o : List (Nat × List Nat)) (r : List (Nat × Nat))
+    (h : intervalsG L = some (o, r)) (hlen : o.length ≠ 1) : r.length < predSum L := by
+  obtain ⟨P, g, dd⟩ := loopG_inv L.preds L.order L.nodes L.entry _ _ _ _ _ _ _ _ h (GI.init _ _ _ _)
+  have d := dd hL.n1 hL.n2 (DI.init _ _ _)
+  have hent : L.entry ∈ P := by
+    rcases g.ent with h1 | ⟨h1, _⟩
+    · exact h1
+    · simp at h1
+  have hlenP : P.length = o.length := by
+    have := congrArg length g.outP
+    simpa using this.symm
+  cases P with
+  | nil => simp at hent
+  | cons z P' =>
+    have hP' : P' ≠ [] := by
+      intro e; subst e; simp at hlenP; exact hlen hlenP.symm
+    have hz : z ≠ L.entry := by
+      intro e
+      obtain ⟨n₀, tl, htl⟩ : ∃ n₀ tl, P'.reverse = n₀ :: tl := by
+        cases hr : P'.reverse with
+        | nil => simp at hr; exact absurd hr hP'
+        | cons a b => exact ⟨a, b, rfl⟩
+      have hn₀ : n₀ ∈ P' := by
+        have : n₀ ∈ P'.reverse := by rw [htl]; exact mem_cons_self
+        exact mem_reverse.mp this
+      rcases g.first n₀ (Or.inr (mem_cons_of_mem _ hn₀)) with e1 | ⟨a, _, _, hlt⟩
+      · exact (nodup_cons.mp g.pN).1 (e ▸ e1 ▸ hn₀)
+      · rw [reverse_cons, htl] at hlt
+        simp at hlt
+    rcases g.first z (Or.inr mem_cons_self) with e | ⟨h₀, hr, _, _⟩
+    · exact absurd e hz
+    · obtain ⟨_, hznodes, hnl, p, hp1, hp2⟩ := g.rec1 _ hr
+      have hzo : z ∈ L.order := hL.n3 z hznodes hz
+      have hq : ∃ q ∈ L.preds z, ¬ Least L.preds L.order h₀ q := by
+        by_contra hc
+        exact hnl (least_closed _ _ h₀ z hzo (fun p' hp' => by
+          by_contra hn
+          exact hc ⟨p', hp', hn⟩))
+      obtain ⟨q, hq1, hq2⟩ := hq
+      have hpq : p ≠ q := fun e => hq2 (e ▸ hp2)
+      have h2 : 2 ≤ (L.preds z).length := by
+        have := length_le_of_inj_rel (R := fun a b => a = b) [p, q] (L.preds z) (by simp [hpq])
+          (by
+            intro x hx
+            simp at hx
+            rcases hx with rfl | rfl
+            · exact ⟨_, hp1, rfl⟩
+            · exact ⟨_, hq1, rfl⟩)
+          (by intro a _ b _ c h1 h2; exact h1.trans h2.symm)
+        simpa using this
+      have hcz : cnt r z ≤ 1 := g.j2 z rfl
+      have hper : ∀ n ∈ L.nodes, cnt r n ≤ (L.preds n).length := by
+        intro n _
+        have e1 : cnt r n = ((r.filter (fun x => x.2 == n)).map Prod.fst).length := by
+          simp [cnt, countP_eq_length_filter]
+        rw [e1]
+        apply length_le_of_inj_rel (R := fun a p => p ∈ L.preds n ∧ Least L.preds L.order a p)
+        · apply Nodup.map_on _ (g.recN.filter _)
+          intro x hx y hy hxy
+          simp at hx hy
+          exact Prod.ext hxy (hx.2.trans hy.2.symm)
+        · intro a ha
+          obtain ⟨x, hx, rfl⟩ := mem_map.mp ha
+          simp at hx
+          obtain ⟨_, _, _, p', hp1', hp2'⟩ := g.rec1 x hx.1
+          exact ⟨p', hx.2 ▸ hp1', hx.2 ▸ hp1', hp2'⟩
+        · intro a ha b hb p' ⟨_, hpa⟩ ⟨_, hpb⟩
+          obtain ⟨x, hx, rfl⟩ := mem_map.mp ha
+          obtain ⟨y, hy, rfl⟩ := mem_map.mp hb
+          simp at hx hy
+          by_contra hab
+          exact d.d1 _ (g.rec1 x hx.1).1 _ (g.rec1 y hy.1).1 hab p' hpa hpb
+      rw [length_eq_sum_cnt L.nodes hL.n4 r (fun x hx => (g.rec1 x hx).2.1)]
+      unfold predSum
+      exact sum_map_lt _ _ _ hper ⟨z, hznodes, by omega⟩
+
+/-! ### the stable sort of `compute_rpo` -/
+
+theorem insertBy_perm (num : Nat → Nat) (x : Nat) : ∀ (l : List Nat), insertBy num x l ~ x :: l := by
+  intro l
+  induction l with
+  | nil => exact Perm.refl _
+  | cons y ys ih =>
+    simp only [insertBy]
+    split
+    · exact Perm.refl _
+    · exact (Perm.cons y ih).trans (Perm.swap x y ys)
+
+theorem insertBy_sorted (num : Nat → Nat) (x : Nat) : ∀ (l : List Nat),
+    l.Pairwise (fun a b => num a ≤ num b) → (insertBy num x l).Pairwise (fun a b => num a ≤ num b) := by
+  intro l
+  induction l with
+  | nil => intro _; simp [insertBy]
+  | cons y ys ih =>
+    intro h
+    have h' := pairwise_cons.mp h
+    simp only [insertBy]
+    split
+    · next hlt =>
+      refine pairwise_cons.mpr ⟨fun z hz => ?_, h⟩
+      rcases mem_cons.mp hz with e | hz'
+      · subst e; omega
+      · have := h'.1 z hz'; omega
+    · next hge =>
+      refine pairwise_cons.mpr ⟨fun z hz => ?_, ih h'.2⟩
+      rcases mem_cons.mp ((insertBy_perm num x ys).mem_iff.mp hz) with e | hz'
+      · subst e; omega
+      · exact h'.1 z hz'
+
+theorem sortBy_aux (num : Nat → Nat) : ∀ (l acc : List Nat), acc.Pairwise (fun a b => num a ≤ num b) →
+    (l.foldl (fun acc x => insertBy num x acc) acc) ~ l ++ acc ∧
+    (l.foldl (fun acc x => insertBy num x acc) acc).Pairwise (fun a b => num a ≤ num b) := by
+  intro l
+  induction l with
+  | nil => intro acc h; exact ⟨Perm.refl _, h⟩
+  | cons x l ih =>
+    intro acc h
+    simp only [foldl_cons]
+    obtain ⟨p, s⟩ := ih (insertBy num x acc) (insertBy_sorted num x acc h)
+    refine ⟨p.trans ?_, s⟩
+    exact ((insertBy_perm num x acc).append_left l).trans perm_middle
+
+theorem sortBy_perm (num : Nat → Nat) (l : List Nat) : sortBy num l ~ l := by
+  have := (sortBy_aux num l [] Pairwise.nil).1
+  simpa [sortBy] using this
+
+theorem sortBy_sorted (num : Nat → Nat) (l : List Nat) :
+    (sortBy num l).Pairwise (fun a b => num a ≤ num b) :=
+  (sortBy_aux num l [] Pairwise.nil).2
+
+/-- when one element has the strictly smallest key it comes first -/
+theorem sortBy_head (num : Nat → Nat) (l : List Nat) (e : Nat) (he : e ∈ l)
+    (hmin : ∀ x ∈ l, x ≠ e → num e < num x) : ∃ tl, sortBy num l = e :: tl := by
+  have hp := sortBy_perm num l
+  have hs := sortBy_sorted num l
+  cases hsl : sortBy num l with
+  | nil =>
+    rw [hsl] at hp
+    exact absurd (hp.mem_iff.mpr he) (by simp)
+  | cons a tl =>
+    rw [hsl] at hp hs
+    by_cases hae : a = e
+    · exact ⟨tl, by rw [hae]⟩
+    · have ha : a ∈ l := hp.mem_iff.mp mem_cons_self
+      have he' : e ∈ tl := by
+        rcases mem_cons.mp (hp.mem_iff.mpr he) with e1 | e1
+        · exact absurd e1.symm hae
+        · exact e1
+      have h1 := (pairwise_cons.mp hs).1 e he'
+      have h2 := hmin a ha hae
+      omega
+
+/-! ### the interval graph is a rooted graph whose entry is node 0 -/
+
+theorem GI.first_entry {preds : Nat → List Nat} {order nodes : List Nat} {entry : Nat}
+    {heads processed : List Nat} {out : List (Nat × List Nat)} {recs : List (Nat × Nat)}
+    (g : GI preds order nodes entry heads processed out recs) (hne : processed ≠ []) :
+    ∃ tl, processed.reverse = entry :: tl := by
+  cases hr : processed.reverse with
+  | nil => simp at hr; exact absurd hr hne
+  | cons n₀ tl =>
+    have hn₀ : n₀ ∈ processed := by
+      have : n₀ ∈ processed.reverse := by rw [hr]; exact mem_cons_self
+      exact mem_reverse.mp this
+    rcases g.first n₀ (Or.inr hn₀) with e1 | ⟨a, _, _, hlt⟩
+    · exact ⟨tl, by rw [e1]⟩
+    · rw [hr] at hlt
+      simp at hlt
+
+theorem entryIdx_aux (e : Nat) : ∀ (rest : List (Nat × List Nat)) (k acc : Nat),
+    (∀ y ∈ rest, y.2.contains e = false) →
+    (rest.zipIdx k).foldl (fun acc p => if p.1.2.contains e then p.2 else acc) acc = acc := by
+  intro rest
+  induction rest with
+  | nil => intro k acc _; rfl
+  | cons y rest ih =>
+    intro k acc h
+    simp only [zipIdx_cons, foldl_cons]
+    rw [h y mem_cons_self]
+    exact ih _ _ (fun z hz => h z (mem_cons_of_mem _ hz))
+
+/-- what the final state of `loopG` says about the interval graph -/
+structure IG (entry : Nat) (o : List (Nat × List Nat)) (r : List (Nat × Nat)) : Prop where
+  hd : ∃ tl, o.map Prod.fst = entry :: tl
+  nd : (o.map Prod.fst).Nodup
+  eidx : entryIdx o entry = 0
+  tgt : ∀ x ∈ r, x.2 ∈ o.map Prod.fst
+  src : ∀ x ∈ r, x.1 ∈ o.map Prod.fst
+  first : ∀ n ∈ o.map Prod.fst, n ≠ entry →
+    ∃ a, (a, n) ∈ r ∧ a ∈ o.map Prod.fst ∧ idxOf a (o.map Prod.fst) < idxOf n (o.map Prod.fst)
+
+theorem GI.toIG {preds : Nat → List Nat} {order nodes : List Nat} {entry : Nat} {P : List Nat}
+    {o : List (Nat × List Nat)} {r : List (Nat × Nat)} (g : GI preds order nodes entry [] P o r)
+    (h1 : entry ∉ order) : IG entry o r := by
+  have hent : entry ∈ P := by
+    rcases g.ent with h | ⟨h, _⟩
+    · exact h
+    · simp at h
+  have hne : P ≠ [] := ne_nil_of_mem hent
+  obtain ⟨tl, htl⟩ := g.first_entry hne
+  have hh : o.map Prod.fst = entry :: tl := g.outP.trans htl
+  have hnd : (o.map Prod.fst).Nodup := by rw [g.outP]; exact nodup_reverse.mpr g.pN
+  have memP : ∀ x, x ∈ o.map Prod.fst ↔ x ∈ P := by intro x; rw [g.outP]; exact mem_reverse
+  have hnt : entry ∉ tl := by
+    have := hnd
+    rw [hh] at this
+    exact (nodup_cons.mp this).1
+  refine ⟨⟨tl, hh⟩, hnd, ?_, ?_, ?_, ?_⟩
+  · cases o with
+    | nil => simp at hh
+    | cons x₀ rest =>
+      simp only [map_cons, cons.injEq] at hh
+      unfold entryIdx
+      simp only [zipIdx_cons, foldl_cons, ite_self]
+      apply entryIdx_aux
+      intro y hy
+      rw [Bool.eq_false_iff]
+      intro hc
+      have hc' : entry ∈ y.2 := by simpa using hc
+      have hl := (g.outI y (mem_cons_of_mem _ hy) entry).mp hc'
+      rcases least_inv preds order y.1 entry hl with e1 | ⟨e2, _⟩
+      · have : y.1 ∈ tl := by rw [← hh.2]; exact mem_map.mpr ⟨y, hy, rfl⟩
+        exact hnt (e1 ▸ this)
+      · exact h1 e2
+  · intro x hx
+    rcases g.rec2 x hx with h | h
+    · simp at h
+    · exact (memP _).mpr h
+  · intro x hx
+    exact (memP _).mpr (g.rec1 x hx).1
+  · intro n hn hne'
+    rcases g.first n (Or.inr ((memP n).mp hn)) with e1 | ⟨a, ha1, ha2, ha3⟩
+    · exact absurd e1 hne'
+    · refine ⟨a, ha1, (memP a).mpr ha2, ?_⟩
+      rw [g.outP]; exact ha3
+
+theorem intervalDigraph_allSucs (o : List (Nat × List Nat)) (r : List (Nat × Nat)) (e u : Nat) :
+    (intervalDigraph o r e).allSucs u =
+      match (o.map Prod.fst)[u]? with
+      | some h => (r.filter (fun x => x.1 == h)).map (fun x => idx (o.map Prod.fst) x.2)
+      | none => [] := by
+  simp only [Digraph.allSucs, intervalDigraph, getElem?_map]
+  cases o[u]? <;> simp
+
+theorem IG.wf {entry : Nat} {o : List (Nat × List Nat)} {r : List (Nat × Nat)} (g : IG entry o r) :
+    (intervalDigraph o r entry).WF := by
+  obtain ⟨tl, hh⟩ := g.hd
+  refine ⟨?_, ?_⟩
+  · have : (intervalDigraph o r entry).entry = 0 := g.eidx
+    rw [this]
+    have : (o.map Prod.fst).length = o.length := length_map _
+    show 0 < o.length
+    rw [← this, hh]; simp
+  · intro u v hv
+    rw [intervalDigraph_allSucs] at hv
+    split at hv
+    · obtain ⟨x, hx, rfl⟩ := mem_map.mp hv
+      have := g.tgt x (mem_filter.mp hx).1
+      show idx (o.map Prod.fst) x.2 < o.length
+      have hl : (o.map Prod.fst).length = o.length := length_map _
+      rw [← hl]
+      exact idxOf_lt_length_iff.mpr this
+    · simp at hv
+
+theorem IG.edge {entry : Nat} {o : List (Nat × List Nat)} {r : List (Nat × Nat)} (g : IG entry o r)
+    {a n : Nat} (h : (a, n) ∈ r) :
+    (intervalDigraph o r entry).Edge (idx (o.map Prod.fst) a) (idx (o.map Prod.fst) n) := by
+  show idx (o.map Prod.fst) n ∈ (intervalDigraph o r entry).allSucs (idx (o.map Prod.fst) a)
+  rw [intervalDigraph_allSucs]
+  have ha := g.src _ h
+  have hlt : idxOf a (o.map Prod.fst) < (o.map Prod.fst).length := idxOf_lt_length_iff.mpr ha
+  have : (o.map Prod.fst)[idx (o.map Prod.fst) a]? = some a := by
+    unfold idx
+    rw [getElem?_eq_getElem hlt]
+    simp
+  rw [this]
+  exact mem_map.mpr ⟨(a, n), mem_filter.mpr ⟨h, by simp⟩, rfl⟩
+
+theorem IG.rooted {entry : Nat} {o : List (Nat × List Nat)} {r : List (Nat × Nat)} (g : IG entry o r) :
+    (intervalDigraph o r entry).Rooted := by
+  intro v hv
+  have he : (intervalDigraph o r entry).entry = 0 := g.eidx
+  rw [he]
+  have hl : (o.map Prod.fst).length = o.length := length_map _
+  have hv' : v < (o.map Prod.fst).length := by rw [hl]; exact hv
+  clear hv
+  induction v using Nat.strongRecOn with
+  | _ v ih =>
+    by_cases h0 : v = 0
+    · subst h0; exact Spec.Reach.refl _
+    · obtain ⟨tl, hh⟩ := g.hd
+      have hmem : (o.map Prod.fst)[v] ∈ o.map Prod.fst := getElem_mem hv'
+      have hidx : idxOf ((o.map Prod.fst)[v]) (o.map Prod.fst) = v := g.nd.idxOf_getElem v hv'
+      have hne : (o.map Prod.fst)[v] ≠ entry := by
+        intro e
+        rw [e] at hidx
+        rw [hh] at hidx
+        simp at hidx
+        exact h0 hidx.symm
+      obtain ⟨a, ha1, ha2, ha3⟩ := g.first _ hmem hne
+      rw [hidx] at ha3
+      have := ih _ ha3 (idxOf_lt_length_iff.mpr ha2)
+      have e := g.edge ha1
+      unfold idx at e
+      rw [hidx] at e
+      exact Spec.Reach.tail this e
+
+theorem rpo_head_zero (dg : Digraph) (hwf : dg.WF) (hr : dg.Rooted) (he : dg.entry = 0) (res : Rpo.Result)
+    (h : Rpo.computeRpo dg = some res) : ∃ tl, sortBy res.num (List.range dg.n) = 0 :: tl := by
+  have hperm := C19.rpo_perm dg hwf hr res h
+  have hone := C19.entry_is_one dg hwf hr res h
+  rw [he] at hone
+  have h0 : 0 < dg.n := by have := hwf.1; omega
+  apply sortBy_head
+  · exact mem_range.mpr h0
+  · intro x hx hx0
+    have hx' : res.num x ∈ List.range' 1 dg.n := hperm.mem_iff.mp (mem_map.mpr ⟨x, hx, rfl⟩)
+    have h1 : 1 ≤ res.num x := by
+      rw [mem_range'_1] at hx'; exact hx'.1
+    have hnd : ((List.range dg.n).map res.num).Nodup := hperm.nodup_iff.mpr (nodup_range' (step := 1) (by omega))
+    have hinj := inj_on_of_nodup_map hnd
+    have : res.num x ≠ 1 := fun e => hx0 (hinj hx (mem_range.mpr h0) (e.trans hone.symm))
+    omega
+
+theorem IG.rec_at {entry : Nat} {o : List (Nat × List Nat)} {r : List (Nat × Nat)} (g : IG entry o r)
+    (v : Nat) (hv : v < (o.map Prod.fst).length) (h0 : v ≠ 0) :
+    ∃ a n, (a, n) ∈ r ∧ idxOf n (o.map Prod.fst) = v := by
+  obtain ⟨tl, hh⟩ := g.hd
+  have hmem : (o.map Prod.fst)[v] ∈ o.map Prod.fst := getElem_mem hv
+  have hidx : idxOf ((o.map Prod.fst)[v]) (o.map Prod.fst) = v := g.nd.idxOf_getElem v hv
+  have hne : (o.map Prod.fst)[v] ≠ entry := by
+    intro e
+    rw [e] at hidx
+    rw [hh] at hidx
+    simp at hidx
+    exact h0 hidx.symm
+  obtain ⟨a, ha1, _, _⟩ := g.first _ hmem hne
+  exact ⟨a, _, ha1, hidx⟩
+
+/-- THE NEXT LEVEL IS WELL-FORMED (whatever the level was, as long as its `rpo[0]` is the entry): the interval
+    graph is rooted at node 0, `compute_rpo` succeeds on it and numbers node 0 first, every other node has a
+    recorded predecessor, and the number of predecessor slots is the number of records -/
+theorem nextLevel_nice (L : Level) (h1 : L.entry ∉ L.order) (o : List (Nat × List Nat)) (r : List (Nat × Nat))
+    (h : intervalsG L = some (o, r)) :
+    ∃ L' rpo, nextLevel o r L.entry = some (L', rpo) ∧ Nice L' ∧ predSum L' = r.length := by
+  obtain ⟨P, g, _⟩ := loopG_inv L.preds L.order L.nodes L.entry _ _ _ _ _ _ _ _ h (GI.init _ _ _ _)
+  have ig := g.toIG h1
+  have hwf := ig.wf
+  have hrt := ig.rooted
+  obtain ⟨res, hres⟩ := C19.rpo_total _ hwf
+  obtain ⟨tl, htl⟩ := rpo_head_zero _ hwf hrt ig.eidx res hres
+  have hn : (intervalDigraph o r L.entry).n = o.length := rfl
+  rw [hn] at htl
+  have hl : (o.map Prod.fst).length = o.length := length_map _
+  have hp : (0 :: tl) ~ List.range o.length := htl ▸ sortBy_perm _ _
+  have hnd : (0 :: tl).Nodup := hp.nodup_iff.mpr nodup_range
+  have he0 : (intervalDigraph o r L.entry).entry = 0 := ig.eidx
+  refine ⟨{ preds := intervalPreds (o.map Prod.fst) r
+            order := (sortBy res.num (List.range o.length)).drop 1
+            nodes := List.range o.length
+            entry := (intervalDigraph o r L.entry).entry }, sortBy res.num (List.range o.length),
+    by simp only [nextLevel, hres], ?_, ?_⟩
+  · constructor
+    · show (intervalDigraph o r L.entry).entry ∉ (sortBy res.num (List.range o.length)).drop 1
+      rw [htl, he0]
+      simpa using (nodup_cons.mp hnd).1
+    · intro i hi
+      show intervalPreds (o.map Prod.fst) r i ≠ []
+      have hi' : i ∈ tl := by
+        have : i ∈ (sortBy res.num (List.range o.length)).drop 1 := hi
+        rw [htl] at this
+        simpa using this
+      have hik : i < o.length := mem_range.mp (hp.mem_iff.mp (mem_cons_of_mem _ hi'))
+      have hi0 : i ≠ 0 := fun e => (nodup_cons.mp hnd).1 (e ▸ hi')
+      obtain ⟨a, n, han, hidx⟩ := ig.rec_at i (by rw [hl]; exact hik) hi0
+      apply ne_nil_of_mem (a := idx (o.map Prod.fst) a)
+      unfold intervalPreds
+      exact mem_map.mpr ⟨(a, n), mem_filter.mpr ⟨han, by simp [idx, hidx]⟩, rfl⟩
+    · intro i hi hi0
+      show i ∈ (sortBy res.num (List.range o.length)).drop 1
+      rw [htl]
+      have : i ∈ 0 :: tl := hp.mem_iff.mpr hi
+      rcases mem_cons.mp this with e | e
+      · have hi0' : i ≠ (intervalDigraph o r L.entry).entry := hi0
+        rw [he0] at hi0'
+        exact absurd e hi0'
+      · simpa using e
+    · exact nodup_range
+  · show ((List.range o.length).map (fun i => (intervalPreds (o.map Prod.fst) r i).length)).sum = r.length
+    have key := length_eq_sum_cnt (List.range o.length) nodup_range
+      (r.map (fun x => (idx (o.map Prod.fst) x.1, idx (o.map Prod.fst) x.2)))
+      (by
+        intro x hx
+        obtain ⟨y, hy, rfl⟩ := mem_map.mp hx
+        apply mem_range.mpr
+        show idxOf y.2 (o.map Prod.fst) < o.length
+        rw [← hl]
+        exact idxOf_lt_length_iff.mpr (ig.tgt y hy))
+    rw [length_map] at key
+    rw [key]
+    congr 1
+    apply map_congr_left
+    intro i _
+    unfold intervalPreds cnt
+    rw [length_map, countP_map, countP_eq_length_filter]
+    rfl
+
+/-! ### termination -/
+
+/-- `derived_sequence` terminates: on a well-formed level, `predSum + 1` iterations are enough -/
+theorem derive_total : ∀ (f : Nat) (L : Level) (acc : List Step), Nice L → predSum L < f →
+    ∃ res, derive f L acc = some res := by
+  intro f
+  induction f with
+  | zero => intro L acc _ h; omega
+  | succ f ih =>
+    intro L acc hL hf
+    obtain ⟨o, r, hI⟩ := intervalsG_total L
+    obtain ⟨L', rpo, hN, hnice, hps⟩ := nextLevel_nice L hL.n1 o r hI
+    simp only [derive, hI, hN]
+    by_cases hlen : (o.length == 1) = true
+    · rw [if_pos hlen]; exact ⟨_, rfl⟩
+    · rw [if_neg hlen]
+      have := recs_lt_predSum L hL o r hI (by simpa using hlen)
+      exact ih L' _ hnice (by omega)
+
+theorem derivedSequence_total (L : Level) (hL : Nice L) : ∃ res, derivedSequence L = some res :=
+  derive_total _ L [] hL (by unfold fuel; omega)
+
+/-- one step per iteration: the derived sequence has at most `fuel` levels -/
+theorem derive_length : ∀ (f : Nat) (L : Level) (acc res : List Step), derive f L acc = some res →
+    res.length ≤ acc.length + f := by
+  intro f
+  induction f with
+  | zero => intro L acc res h; simp [derive] at h
+  | succ f ih =>
+    intro L acc res h
+    simp only [derive] at h
+    split at h
+    · simp at h
+    · split at h
+      · simp at h
+      · split at h
+        · simp at h; subst h; simp
+        · have := ih _ _ _ h
+          simp at this
+          omega
+
+/-! ### decidable well-formedness, and the statements used in Props/C22.lean -/
+
+/-- `Nice` as a check -/
+def niceb (L : Level) : Bool :=
+  !L.order.contains L.entry && L.order.all (fun n => !(L.preds n).isEmpty) &&
+  L.nodes.all (fun n => n == L.entry || L.order.contains n) && decide L.nodes.Nodup
+
+theorem nice_of_niceb {L : Level} (h : niceb L = true) : Nice L := by
+  simp only [niceb, Bool.and_eq_true, Bool.not_eq_true', all_eq_true, Bool.or_eq_true,
+    decide_eq_true_eq, beq_iff_eq, contains_eq_mem, decide_eq_false_iff_not] at h
+  obtain ⟨⟨⟨a, b⟩, c⟩, d⟩ := h
+  refine ⟨a, fun n hn e => ?_, fun n hn hne => ?_, d⟩
+  · have := b n hn
+    simp [e] at this
+  · rcases c n hn with e | e
+    · exact absurd e hne
+    · exact e
+
+theorem niceb_of_nice {L : Level} (h : Nice L) : niceb L = true := by
+  simp only [niceb, Bool.and_eq_true, Bool.not_eq_true', all_eq_true, Bool.or_eq_true,
+    decide_eq_true_eq, beq_iff_eq, contains_eq_mem, decide_eq_false_iff_not]
+  refine ⟨⟨⟨h.n1, fun n hn => ?_⟩, fun n hn => ?_⟩, h.n4⟩
+  · have := h.n2 n hn
+    cases hp : L.preds n with
+    | nil => exact absurd hp this
+    | cons a b => rfl
+  · by_cases e : n = L.entry
+    · exact Or.inl e
+    · exact Or.inr (h.n3 n hn e)
+
+/-- on a well-formed level the intervals of two different headers share no node -/
+theorem intervals_disjoint (L : Level) (hL : Nice L) (o : List (Nat × List Nat)) (r : List (Nat × Nat))
+    (h : intervalsG L = some (o, r)) :
+    ∀ p ∈ o, ∀ q ∈ o, p.1 ≠ q.1 → ∀ x ∈ p.2, x ∉ q.2 := by
+  obtain ⟨P, g, dd⟩ := loopG_inv L.preds L.order L.nodes L.entry _ _ _ _ _ _ _ _ h (GI.init _ _ _ _)
+  have d := dd hL.n1 hL.n2 (DI.init _ _ _)
+  have memP : ∀ p ∈ o, p.1 ∈ P := by
+    intro p hp
+    have : p.1 ∈ o.map Prod.fst := mem_map.mpr ⟨p, hp, rfl⟩
+    rw [g.outP] at this
+    exact mem_reverse.mp this
+  intro p hp q hq hne x hx hxq
+  exact d.d1 _ (memP p hp) _ (memP q hq) hne x ((g.outI p hp x).mp hx) ((g.outI q hq x).mp hxq)
+
+/-- termination with the explicit bound -/
+theorem derivedSequence_terminates (L : Level) (hL : niceb L = true) :
+    ∃ res, derivedSequence L = some res ∧ res.length ≤ predSum L + 1 := by
+  obtain ⟨res, h⟩ := derivedSequence_total L (nice_of_niceb hL)
+  refine ⟨res, h, ?_⟩
+  have := derive_length _ _ _ _ h
+  simpa [fuel] using this
 
 end AgVerif.DerivedSeq
